@@ -280,12 +280,263 @@ PROPS["C11"] = dict(
     trusted_base=["Bc.step models src/exec/bcint/ops.rs (tied by the bcrun stream)"],
 )
 
-PENDING = {}
-PENDING["C05"] = dict(
+def c07_limited(run, harnesses):
+    """Budget ladder: the canonical event sequence of each candidate program (Lean model, fuel 200000) is
+    attached to a `limchk` request; every back end x level x budget in {0,1,2,3,5,10,30,100,1000,20000,2^62}
+    must report finished only with exactly those events, otherwise a prefix, never fewer events with a
+    larger budget, and must finish with the unlimited budget iff the canonical run halts."""
+    import os
+    from common import read_lines
+    h = harnesses.get("debug") or list(harnesses.values())[0]
+    count = 250 if run.tier == "quick" else 12000
+    d = os.path.join(run.work, "limgen")
+    h.run("divgen", run.seed + 17, count, d, timeout=600)
+    reqs = [r.replace("in=none", "in=-") for r in read_lines(os.path.join(d, "divgen.req"))]
+    qs, cs = [], []
+    for r in reqs:
+        t = r.split()
+        qs.append(f"bftrace {t[1]} 200000 {t[3]} {t[4]} {t[5]}")
+        cs.append(f"bfcert {t[1]} 60000 {t[3]} {t[4]} {t[5]}")
+    reps = run.driver.ask(qs, timeout=3000) if qs else []
+    certs = run.driver.ask(cs, timeout=3000) if cs else []
+    lines = []
+    stats = dict(halting=0, certified_divergent=0, not_halting_within_fuel=0)
+    for q, rep, cert in zip(qs, reps, certs):
+        t = q.split(); p = rep.split()
+        if len(p) < 2 or p[0] not in ("ok", "fuel"):
+            continue
+        verdict = p[0]
+        if verdict == "fuel" and cert.startswith("diverges"):
+            verdict = "div"
+        stats[{"ok": "halting", "div": "certified_divergent", "fuel": "not_halting_within_fuel"}[verdict]] += 1
+        lines.append(f"limchk {t[1]} {t[3]} {t[4]} {t[5]} {verdict} {p[1]}")
+    rq = os.path.join(run.work, "limchk.req")
+    open(rq, "w").write("".join(l + "\n" for l in lines))
+    run.stream_stats["limchk_programs"] = stats
+    for profile, hh in harnesses.items():
+        name = f"limchk_{profile}"
+        rs, impls, models = run.run_stream(hh, name, reqfile=rq, timeout=3000)
+        run.judge_stream(hh, name, "div", rs, impls, models)
+
+
+PROPS["C05"] = dict(
     modules=["Hpbf.Props.C05"],
-    theorems=[],   # filled below
+    theorems=t("Hpbf.C05", "normTape_denotes sameCfg_sound step_congr repeat_diverges cert_diverges_sound "
+               "cert_diverges_witness cert_halts_sound cert_consistent inplace_never_returns inplace_runs_forever "
+               "inplace_limited_interrupted inplace_terminates inplace_divergent_output inplace_output_agrees "
+               "ir_never_returns ir_runs_forever ir_limited_interrupted ir_terminates ir_divergent_output "
+               "ir_output_agrees stationary_scan_diverges"),
     streams=[],
     extra=[c05_divergence],
     corpus=["diverge"], corpus_judge="div",
-    scope="", rule="", trusted_base=[],
+    scope="Divergence certificates are sound (a canonical run that revisits a configuration never terminates; "
+          "cert_diverges_sound, cert_halts_sound). For the in-place interpreter (all programs) and the IR "
+          "interpreter at level 0 (all programs, w >= 1): canonical divergence implies the back end never returns "
+          "(finished/stopped impossible for every fuel and budget), limited mode reports interrupted, everything "
+          "canonical prints before diverging is printed and nothing else (inplace_divergent_output, "
+          "ir_divergent_output); canonical termination implies termination. A stationary scan on a non-zero cell "
+          "diverges in the bytecode machine.",
+    not_proved="for optimised IR (levels >= 1), the bytecode interpreter and the JIT the statement is not a theorem "
+               "(no verified optimiser / code generator): they are held to the Lean model's certificate per program "
+               "(divchk stream). 'Never returns' in unlimited mode is observed through limited mode with budgets up to "
+               "150000 in-process; the thorough tier additionally runs the real binary without limit under a wall-clock window",
+    rule="two-phase: candidate programs (ordinary generated programs with an injected construct that may run forever: "
+         "empty/non-empty infinite loops, steps that never reach zero, I/O inside infinite loops) are certified by the Lean "
+         "model as halting or divergent (Brent cycle detection on canonical configurations, fuel 60000; uncertified "
+         "candidates are dropped and counted); then every back end (in-place, IR, bytecode, JIT) at levels 0,1,2,3,4,7 must "
+         "finish with exactly the canonical events (halting) or report interrupted at budgets 1, 50, 150000 with events that "
+         "are canonical prefixes and include everything emitted before the certified repetition (divergent). "
+         "Non-trivial = certified programs; distinct = distinct requests.",
+    trusted_base=["C04 and C01 theorems (imported)"],
+)
+
+PROPS["C07"] = dict(
+    modules=["Hpbf.Props.C07", "Hpbf.Props.C04"],
+    theorems=t("Hpbf.C07", "ir_limited_done ir_limited_stopped ir_limited_prefix ir_limited_is_prefix ir_limited_enough "
+               "ir_limited_enough_stopped ir_limited_terminates ir_divergent_never_finished bc_limited_done "
+               "bc_limited_stopped bc_limited_bad bc_limited_prefix bc_limited_is_prefix bc_limited_enough "
+               "bc_limited_enough_stopped bc_limited_enough_bad bc_limited_terminates_scanfree bc_limited_terminates "
+               "bc_divergent_never_finished") + t("Hpbf.C04", "inplace_limited inplace_limited_terminates inplace_limited_enough inplace_limited_enough_stopped"),
+    streams=[dict(suite="inplace", quick=1500, thorough=60000, judge="program"),
+             dict(suite="irrun", quick=1000, thorough=40000, judge="program"),
+             dict(suite="bcrun", quick=80, thorough=4000, judge="bcrun")],
+    extra=[c07_limited],
+    corpus=["programs"], corpus_judge="program",
+    scope="For the in-place interpreter (vs canonical semantics, all programs), the IR machine and the bytecode machine "
+          "(limited vs unlimited run of the SAME program, all programs incl. malformed bytecode): a limited run that "
+          "reports finished/stopped ends in the same state as the unlimited run; otherwise its events are a prefix; a "
+          "budget >= the unlimited step count suffices to finish; limited runs terminate within an explicit fuel bound "
+          "((b+1)*(size+1); for bytecode with moving scans existence is proved via the finite support of the tape); a "
+          "divergent run never reports finished.",
+    not_proved="the JIT's budget handling (cmp budget,2; jb) is not covered by a theorem yet (C03 model in progress); the "
+               "link 'unlimited run of optimised IR/bytecode = canonical' is C01/C02's partial part. Wall-clock boundedness "
+               "is the proved step bound times an unmodelled constant",
+    rule="(1) inplace/irrun/bcrun streams: limited runs with budgets {0,1,2,3,5,40,50,2000,3000} compared with the models on "
+         "result kind, events, tape window and REMAINING BUDGET; (2) limchk: for certified-halting and non-halting programs, "
+         "all four back ends x levels {0,1,2,3,4,7} x budget ladder {0,1,2,3,5,10,30,100,1000,20000,2^62} against the canonical "
+         "events from the Lean model: finished => exactly the canonical events, interrupted => prefix, more budget => not "
+         "fewer events, unlimited budget => finished iff canonical halts. Distinct = distinct requests.",
+    trusted_base=["C04 theorems (imported)"],
+)
+
+PROPS["C08"] = dict(
+    modules=["Hpbf.Props.C08"],
+    theorems=t("Hpbf.C08", "outByte_low8 eof_reads_zero eof_sticky eof_reply_reads_zero input_error_stops "
+               "input_absent_stops output_refused_stops output_absent_sink_ok input_fails_iff output_fails_iff "
+               "bf_stop_final bf_stops_only_at_io inplace_stop_final inplace_stops_only_at_io ir_stop_final "
+               "ir_stops_only_at_io bc_stop_final bc_stops_only_at_io refusal_cases refusal_is_canonical_prefix "
+               "refusal_is_canonical_prefix_exact unreached_refusal_harmless input_failure_independent_of_sink "
+               "inplace_stops_like_canonical inplace_limited_stops_like_canonical inplace_stops_only_like_canonical "
+               "ir_stops_like_canonical ir_limited_stops_like_canonical ir_stops_only_like_canonical refused_byte_all_backends"),
+    streams=[dict(suite="faults", quick=150, thorough=6000, judge="program"),
+             dict(suite="e2e", quick=800, thorough=20000, judge="program")],
+    corpus=["programs"], corpus_judge="program",
+    scope="Environment semantics (end of input reads 0 and is sticky; read error / absent source / refused byte stop "
+          "with the tape untouched; absent sink accepts silently) for the shared State operations; for each machine "
+          "(canonical, in-place, IR, bytecode) a stop ends the run (no later event) and happens only at a failing I/O "
+          "instruction; the events before a refused byte, and the refused byte itself, are exactly those of the "
+          "fault-free run (refusal_is_canonical_prefix); the in-place interpreter and the IR interpreter (level 0) stop "
+          "exactly like the canonical machine in the same faulty environment.",
+    not_proved="bytecode interpreter and JIT vs canonical under faults is checked per program (faults stream), not proved; "
+               "the JIT's balanced stack on the termination path awaits the x86 model (C03)",
+    rule="fault enumeration: for each generated program, every index of the first refused output byte (0..min(#outputs,12)), "
+         "every index of the first failing input request (as error, and as early end of input), absent source, absent sink; "
+         "refusals alternate Ok(0) and Err; all four back ends x levels {0,1,2,3,4,7} x {unlimited, limited 2^40} compared "
+         "with the canonical run in the same environment. Distinct = distinct requests; non-trivial = at least one event.",
+    trusted_base=["C04 and C01 theorems (imported)"],
+)
+
+PENDING = {}
+
+
+
+def c06_guard(run, harnesses):
+    mem_ties.c06_guard(run, harnesses)
+
+
+def c10_unsafe(run, harnesses):
+    """execute_unsafe on contexts pre-grown to the pointer excursion plus the program's length, under the
+    guard-page allocator: canonical events and no fault."""
+    from common import Harness
+    n = 300 if run.tier == "quick" else 15000
+    for side in ["left", "right"]:
+        h = Harness("debug", binary="guard", env={"GUARD": side})
+        name = f"unsafe_guard_{side}"
+        reqs, impls, models = run.run_stream(h, name, suite="unsafe", count=n, timeout=3000)
+        run.judge_stream(h, name, "program", reqs, impls, models)
+
+
+def c13_cross_process(run, harnesses):
+    """The same compilations in two separate processes (different hash seeds, different load addresses):
+    the hashes of printed IR, bytecode (both settings) and machine code (shim addresses masked) must agree."""
+    import os
+    from common import read_lines
+    h = harnesses.get("debug") or list(harnesses.values())[0]
+    n = 120 if run.tier == "quick" else 5000
+    d1 = os.path.join(run.work, "c13_p1"); d2 = os.path.join(run.work, "c13_p2")
+    h.run("c13", run.seed + 5, n, d1, timeout=3000)
+    h.run("c13", run.seed + 5, n, d2, timeout=3000)
+    a = read_lines(os.path.join(d1, "c13.side")); b = read_lines(os.path.join(d2, "c13.side"))
+    bad = [i for i in range(min(len(a), len(b))) if a[i] != b[i]]
+    ok = not bad and len(a) == len(b) and len(a) > 0
+    run.evaluations += len(a)
+    run.oblige(f"cross-process stream c13: {len(a)} programs x 4 levels compiled in two processes, identical IR/bytecode/machine-code hashes",
+               ok, f"{len(bad)} programs differ" if bad else ("no output" if not a else ""))
+    for i in bad[:2]:
+        t = a[i].split()
+        run.violations.append(dict(what=f"compilation output depends on the process: program {bytes.fromhex(t[1]).decode('utf-8','replace')!r} width {t[0]}: hashes {a[i][-200:]} vs {b[i][-200:]}",
+                                   stream="c13_cross", request=a[i][:600], found=True, key=t[1]))
+    if run.tier == "thorough":
+        c13_blowup(run)
+
+
+def c13_blowup(run):
+    """Compile-time growth on doubling program families (thorough tier): time ratio per doubling < 12."""
+    import time, subprocess, os
+    from cli_tie import build_cli
+    ok, binary, out = build_cli("release")
+    if not ok:
+        run.oblige("cargo build hpbf (release) for the blow-up measurement", False, out[-500:]); return
+    fams = {"flat": lambda n: "+>" * n + "[-]", "nested": lambda n: "+" + "[>+" * n + "[-]" + "<-]" * n,
+            "moves": lambda n: "+[" + "->+<" * n + "]", "copies": lambda n: "".join("[->+>+<<]>>[-<<+>>]<" for _ in range(n))}
+    worst = 0.0
+    for name, f in fams.items():
+        prev = None
+        for n in [50, 100, 200, 400]:
+            t0 = time.time()
+            subprocess.run([binary, "--print-jit-mc", "-O3", f(n)], capture_output=True, timeout=600)
+            dt = max(time.time() - t0, 0.005)
+            if prev:
+                worst = max(worst, dt / prev)
+            prev = dt
+    run.notes.append(f"worst compile-time ratio per doubling: {worst:.1f}")
+    run.oblige("compile time grows polynomially on doubling families (ratio per doubling < 12)", worst < 12, f"ratio {worst:.1f}")
+
+
+PROPS["C06"] = dict(
+    modules=["Hpbf.Props.C06", "Hpbf.Props.C09"],
+    theorems=t("Hpbf.C06", "grow_spec grow_size_le lay_of_makeAccessible growth_preserves_cells move_inWindow enter_inWindow "
+               "re_enter_noop safe_run_no_oob safe_run_inWindow safe_run_no_oob_final safe_run_no_oob_of_check size_monotone "
+               "size_monotone_from size_monotone_step") + t("Hpbf.C09", "makeAccessible_cell history_refines"),
+    streams=[dict(suite="bcrun", quick=80, thorough=4000, judge="bcrun"),
+             dict(suite="mem", quick=1000, thorough=30000, judge="mem")],
+    extra=[c06_guard],
+    scope="On the layout model (allocation size, physical pointer index) of the bounds-checked threaded interpreter and "
+          "of the bounds-checked JIT: for every contract-checked bytecode program, every environment, fuel, mode and start "
+          "layout, under a 2^59 range guard, EVERY tape access of every executed instruction is inside the allocation "
+          "(safe_run_no_oob: the declared window stays inside after every move of any size in either direction, probing "
+          "one edge suffices, the JIT's one-cell growth suffices, re-entering is a no-op), the allocation only grows, and "
+          "every growth preserves all cell contents and the logical pointer (growth_preserves_cells, via C09).",
+    not_proved="the in-place and IR interpreters access the tape only through Memory::read/write (C09 covers them); the "
+               "layout model is tied to the real Memory (size, offset) after threaded-interpreter runs, the JIT's probe "
+               "code only through guard-page runs; raw pointer arithmetic beyond the model is observed, not proved",
+    rule="(1) bcrun: the real (size, offset) of the tape after threaded-interpreter runs equals the layout model's, for "
+         "bytecode of generated programs incl. roaming ones (debug profile); (2) guard pages: the e2e comparison and far-"
+         "roaming programs (walks of 1000-10000 cells, scans, revisits) on all back ends x levels with every tape buffer and "
+         "interpreter context flush against an inaccessible page on the LEFT and on the RIGHT: any out-of-allocation access "
+         "faults and is reported with the program. Distinct = distinct requests.",
+    trusted_base=["the guard allocator harness/src/bin/guard.rs (mmap/mprotect)", "C09 and C11 theorems (imported)"],
+)
+
+PROPS["C10"] = dict(
+    modules=["Hpbf.Props.C10"],
+    theorems=t("Hpbf.C10", "mode_irrelevant mode_irrelevant_for_outcome move_eq_of_no_growth unchecked_eq_safe "
+               "unchecked_region reach_of_ptrRange parse_offsets_le_moves parse_offsets_le_length"),
+    streams=[],
+    extra=[c10_unsafe],
+    scope="The bytecode semantics is the same in all modes (only addresses differ); if the bounds-checked run from a "
+          "pre-grown layout never grows, the unchecked run makes exactly the same accesses, all inside the region "
+          "(unchecked_eq_safe); a static sufficient condition from the pointer excursion and the declared window "
+          "(unchecked_region); at level 0 every IR offset is bounded by the number of </> characters of the source "
+          "(parse_offsets_le_length: the 'margin of the program's length').",
+    not_proved="for optimised IR the bound of the window by the program length is checked per program (the region used in "
+               "the runs is excursion + length), not proved; events of unchecked runs = canonical rests on C02/C03's partial part",
+    rule="execute_unsafe on the bytecode interpreter and the JIT, levels 0-3, 4 widths, on contexts pre-grown to [lo - len - 1, "
+         "hi + len + 1] (pointer excursion of the canonical run from a reference interpreter, len = program length), under the "
+         "guard-page allocator (left and right): events must equal the canonical run's, the allocation must not grow, no fault. "
+         "Programs whose canonical run exceeds 400000 steps are skipped and counted.",
+    trusted_base=["the guard allocator", "C11 theorems (imported)"],
+)
+
+PROPS["C13"] = dict(
+    modules=["Hpbf.Props.C11", "Hpbf.Props.C12"],
+    theorems=t("Hpbf.C11", "check_no_bad check_run_not_bad check_temps_lt") + t("Hpbf.C12", "parse_invariant parseStep_unreachable_arm parse_unreachable_arm parse_ok_iff_balanced"),
+    streams=[dict(suite="c13", quick=150, thorough=8000, judge="const"),
+             dict(suite="bcgen", quick=40, thorough=3000, judge="const"),
+             dict(suite="jitgen", quick=10, thorough=600, judge="const")],
+    extra=[c13_cross_process],
+    scope="Proved: the parser model is total and its two defensive arms are unreachable (C12); every bytecode program "
+          "accepted by the contract checker only contains operand forms the threaded interpreter implements (no "
+          "unimplemented! at run time, C11 check_no_bad). Tied exactly: bytecode generation and JIT code generation are "
+          "pure Lean functions of (IR, registers, fusion) resp. (bytecode, mode) whose output equals the Rust's on every "
+          "sampled input — including the forms for which the Rust panics with unimplemented!, which the model predicts.",
+    not_proved="absence of panics, independence of hash seeds and of earlier compilations, and reusability are properties of "
+               "the running Rust code: they are observed (catch_unwind in a debug build, double compilation, two processes, "
+               "triple execution), not proved; 'no super-polynomial blow-up' is measured on doubling families (thorough tier)",
+    rule="c13 stream: generated programs incl. nesting depth 50-400 and divergent ones x 4 widths x levels 0-3: create every "
+         "executor under catch_unwind (debug build: overflow checks on), compile twice and compare Debug prints of IR, "
+         "bytecode (2 regs+fusion, 11 regs) and machine code in three modes, execute each executor three times on fresh "
+         "contexts; the same in two separate processes (hashes compared); bcgen/jitgen: exact equality with the Lean "
+         "generators. Distinct = distinct programs.",
+    trusted_base=["machine code comparison masks the 8 address bytes of `mov rax, imm64; call rax` (they depend on the load address)"],
 )
